@@ -80,7 +80,9 @@ extern uint64_t g_N;
 /* the tracked cell is consistent with the container: live inside [0,size), raw inside [size,capacity);
  * for a heap-backed SmallVector the inline slots hold no element (the pointer lives in their bytes) */
 #if CAT_TC
-#define V_CELL_OK(p) 1
+/* trivially copyable elements have no observable lifetime events (destruction is a no-op, construction may overwrite): the only
+ * state that matters is "initialised": every slot below size holds a value; slots above may hold stale ones */
+#define V_CELL_OK(p) (!CELL_IN(V_DATA(p), 0, V_SIZE(p)) || g_cell_st == ST_LIVE)
 #else
 #if FLAVOUR == FL_SMALL
 #define V_CELL_OK(p) ((!CELL_IN(V_DATA(p), 0, V_SIZE(p)) || g_cell_st == ST_LIVE) && \
@@ -92,7 +94,9 @@ extern uint64_t g_N;
 #endif
 #endif
 /* the token designates a live element: never a raw slot of the container */
-#if FLAVOUR == FL_SMALL
+#if CAT_TC
+#define V_TOK_OK(p) 1          /* stale values of trivially copyable elements may remain above size: see V_CELL_OK */
+#elif FLAVOUR == FL_SMALL
 #define V_TOK_OK(p) (!TOK_IN(V_DATA(p), V_SIZE(p), V_CAPA(p)) && (V_SMALL(p) || !(g_tok_on && g_tok_obj == OBJ(p))))
 #else
 #define V_TOK_OK(p) (!TOK_IN(V_DATA(p), V_SIZE(p), V_CAPA(p)))
@@ -201,16 +205,23 @@ extern uint64_t g_cnt;
 #define EMPLACE_NEW_CELL(idx, a) V_NEW_CELLS_HAVE(idx, (idx) + 1, a)
 #elif EMPLACE_KIND == 2
 #define EMPLACE_ARG_REQ(a) (V_FRESH(a, ESZ) && EXT_OK(a))
-#define EMPLACE_NEW_CELL(idx, a) (!PRE_TOK_AT(a) || TOK_AT(V_DATA(OPSELF), idx))
+#define EMPLACE_NEW_CELL(idx, a) V_MOVED_IN(idx, a)
 #else
 #define EMPLACE_ARG_REQ(a) V_FRESH(a, sizeof(int))
 #define EMPLACE_NEW_CELL(idx, a) (!CELL_AT(V_DATA(OPSELF), idx) || g_cell_st == ST_LIVE)
 #endif
 #define PRE_TOK_AT(v) (pre_g.tok_on && pre_g.tok_obj == OBJ(v) && pre_g.tok_off == OFF(v))
+/* the object v was moved into slot idx: the element is now there (for a trivially copyable type a move is a copy: the slot
+ * holds the value, the source keeps it) */
+#if CAT_TC
+#define V_MOVED_IN(idx, v) (!(PRE_TOK_AT(v) && CELL_AT(V_DATA(OPSELF), idx)) || (g_cell_st == ST_LIVE && g_cell_val == pre_g.tokval))
+#else
+#define V_MOVED_IN(idx, v) (!PRE_TOK_AT(v) || TOK_AT(V_DATA(OPSELF), idx))
+#endif
 /* old elements [lo,hi) are now at their old index + shift */
 #define V_ELEMS_KEPT(lo, hi, shift) (!PRE_TOK_IN(pre_g, pre_self, lo, hi) || TOK_AT(V_DATA(OPSELF), PRE_TOK_IDX(pre_g, pre_self) + (shift)))
 /* old elements [lo,hi) no longer exist */
-#define V_ELEMS_GONE(lo, hi) (!PRE_TOK_IN(pre_g, pre_self, lo, hi) || !g_tok_on)
+#define V_ELEMS_GONE(lo, hi) (CAT_TC || !PRE_TOK_IN(pre_g, pre_self, lo, hi) || !g_tok_on)
 /* the slots [lo,hi) hold the value the argument had before the call */
 #define V_NEW_CELLS_HAVE(lo, hi, v) (!(PRE_TOK_AT(v) && CELL_IN(V_DATA(OPSELF), lo, hi)) || (g_cell_st == ST_LIVE && g_cell_val == pre_g.tokval))
 #define V_NEW_CELLS_INIT(lo, hi) (!CELL_IN(V_DATA(OPSELF), lo, hi) || (g_cell_st == ST_LIVE && (g_cell_val == L0_VAL_INIT || CAT_TC)))
